@@ -266,7 +266,10 @@ Inductive cop :=
 | KStep (xsh : list nat) (xs : list A) (inj : list (list A))
 | KSynCurrent | KSynSpike | KSelector
 | KSetDelay (d : list A)
-| KClear.
+| KClear
+| KRestore.   (* state_dict() of the connection loaded into a twin connection of the same configuration (fresh, or already
+                 run on other data), which then continues the run: every parameter, every record and every record
+                 pointer is copied (that the round trip is faithful is property C12), so the continuing state is the same *)
 
 Inductive cout := COUnit | COFloat (v : view) | COBool (v : view) | COErr (e : err).
 
@@ -282,6 +285,7 @@ Definition cstep (c : cfg) (ks : conn * syn) (o : cop) : (conn * syn) * cout :=
   | KSelector => (ks, COFloat (conn_selector k))
   | KSetDelay d => ((conn_set_delay k d, s), COUnit)
   | KClear => ((k, clear NM c s), COUnit)            (* Connection.clear -> synapse.clear *)
+  | KRestore => (ks, COUnit)
   end.
 
 Fixpoint crun (c : cfg) (ks : conn * syn) (ops : list cop) : (conn * syn) * list cout :=
